@@ -143,6 +143,29 @@ Section AssocFacts.
   Qed.
 End AssocFacts.
 
+Lemma aset_same {A} k (v : A) m : aget k m = Some v -> aset k v m = m.
+Proof.
+  induction m as [|[k' v'] m IH]; simpl; try discriminate.
+  destruct (bseq k k') eqn:E.
+  - intro H. inversion H; subst. apply bseq_eq in E. subst. reflexivity.
+  - intro H. f_equal. auto.
+Qed.
+
+Lemma Forall_aset {A} (P : bytes * A -> Prop) k v m :
+  Forall P m -> (forall k', P (k', v)) -> Forall P (aset k v m).
+Proof.
+  intros H Hv. induction m as [|[k' v'] m IH]; simpl.
+  - constructor; auto.
+  - inversion H; subst. destruct (bseq k k'); constructor; auto.
+Qed.
+
+Lemma Forall_adel {A} (P : bytes * A -> Prop) k m : Forall P m -> Forall P (adel k m).
+Proof.
+  intro H. induction m as [|[k' v'] m IH]; simpl; auto.
+  inversion H; subst. destruct (bseq k k'); auto.
+Qed.
+
+
 (* ---- induction on decoded values ---- *)
 Section OjsonInd.
   Variable P : ojson -> Prop.
